@@ -76,7 +76,14 @@ contract('parso.file_io.FileIO.get_last_modified', params={'self': 'ref:FileIO'}
 # ---- the disk branch.  Ghost file system: file_mtime(p) is the modification time of the file at p, file_obj(p) the
 # object its pickle holds, path_of(h) the path a file handle was opened on, hashed_path(g, p, c) the cache file name.
 _fm = _cur        # one ghost: the modification time of the file at a path now (source files and pickles alike)
-_fo = z3.Function('file_obj', I, I)
+# file_obj is state: the ghost heap array $fobj (path -> object the file's bytes unpickle to), written by pickle.dump,
+# by opening a file for writing and by os.remove; everything else leaves it alone
+from pv.contract import GHOST_ARRAYS  # noqa: E402
+GHOST_ARRAYS['$fobj'] = z3.ArraySort(I, I)
+
+
+def _fo_rd(st, p):
+    return z3.Select(st.arr('$fobj', z3.ArraySort(I, I)), p)
 _po = z3.Function('path_of', I, I)
 _hp = z3.Function('hashed_path', I, I, I, I)
 
@@ -89,13 +96,13 @@ def sp_fm(eng, st, p):
 @specfn('file_obj')
 def sp_fo(eng, st, p):
     from pv.values import VRef
-    return VRef(_fo(p.t), None)
+    return VRef(_fo_rd(st, p.t), None)
 
 
 @specfn('file_item')
 def sp_fi(eng, st, p):
     from pv.values import VRef
-    return VRef(_fo(p.t), '_NodeCacheItem')      # the same object, viewed as a cache item (for field access)
+    return VRef(_fo_rd(st, p.t), '_NodeCacheItem')      # the same object, viewed as a cache item (for field access)
 
 
 @specfn('path_of')
@@ -176,11 +183,25 @@ contract('parso.cache._NodeCacheItem.__init__',
          ensures=['self.node is node', 'self.lines == lines',
                   'implies(not (change_time is None), self.change_time == change_time)', 'self.last_used == self.change_time'],
          modifies=['self.node', 'self.lines', 'self.change_time', 'self.last_used'], props=['C16'])
+OTHER_FILES = 'forall(lambda q: implies(not (q == %s), file_obj(q) is old(file_obj(q))))'
+contract('ext:io.open#write', params={'file': 'any', 'mode': 'str'}, returns='any', trusted=True, raises=['OSError'],
+         requires=['mode == "wb"'], ensures=['path_of(result) == file', OTHER_FILES % 'file'], modifies=['$fobj'],
+         note='environment: a handle on that file, which is truncated (its content is unknown from here on); no other file changes')
+contract('ext:_pickle.dump', params={'obj': 'ref', 'file': 'any', 'protocol': 'any'}, trusted=True, raises=['Exception'],
+         ensures=['file_obj(path_of(file)) is obj', OTHER_FILES % 'path_of(file)'], modifies=['$fobj'],
+         note='environment: on normal return the file unpickles to that object (the with block closes and flushes the '
+              'handle before _save_to_file_system returns); any exception may escape (unpicklable tree, full disk, recursion)')
+# C17 "a later successful save repairs the entry": whatever was in the cache file before, a save that returns normally
+# has written the item there, and no other file changed
 contract('parso.cache._save_to_file_system',
          params={'hashed_grammar': 'any', 'path': 'any', 'item': 'ref:_NodeCacheItem', 'cache_path': 'any'},
-         trusted=True, raises=['Exception'], lists=[],
-         note='environment: writing the pickle may fail in any way (full disk, permissions, unpicklable tree, recursion)')
+         requires=['item is not None'],
+         ensures=['file_obj(%s) is item' % HP, OTHER_FILES % HP],
+         raises=['Exception', 'OSError'], modifies=['$fobj'], lists=[],
+         call_keys={'ext:io.open': 'ext:io.open#write'}, props=['C17'],
+         note='writing the pickle may fail in any way (full disk, permissions, unpicklable tree, recursion)')
 contract('parso.cache._remove_cache_and_update_lock', params={'cache_path': 'any'}, trusted=True, raises=['OSError'], lists=[],
+         modifies=['$fobj'],
          note='environment: directory clean-up; only OSError escapes it (effect obligation eff:C17:raises)')
 contract('ext:_warnings.warn', params={'message': 'any', 'category': 'any'}, trusted=True,
          note='ASSUMED not to raise: under the default warning filters a warning is printed; with -W error a failed save '
@@ -200,7 +221,7 @@ contract('parso.cache.try_to_save_module',
                   # every other entry that exists afterwards existed before with the same item
                   'forall(lambda g, p: implies(g in parser_cache and p in parser_cache[g] and not (g == hashed_grammar and p == file_io.path), '
                   'old(g in parser_cache and p in parser_cache[g]) and parser_cache[g][p] is old(parser_cache[g][p])))'],
-         raises=[], modifies=['parser_cache', '$maps', 'node', 'lines', 'change_time', 'last_used'], props=['C16', 'C17'])
+         raises=[], modifies=['parser_cache', '$maps', 'node', 'lines', 'change_time', 'last_used', '$fobj'], props=['C16', 'C17'])
 
 
 # ---- cache maintenance (C17: clean-up never deletes an entry that is in use).  Ghost environment: file_atime(p) is the
